@@ -125,6 +125,8 @@ def h_overview(a: int, b: int, pa: int, pb: int) -> bool:
         prev = {"Python": LT("Python", pa), "Java": LT("Java", pb, 1), "C": LT("C", 5, 2)}
     elif SCEN == "nodiff":
         prev = None
+    elif SCEN == "prevempty":  # the comparison report exists but holds no language at all
+        prev = {}
     else:                      # single language, with comparison
         cur = {"Python": LT("Python", a)}
         prev = {"Python": LT("Python", pa)}
@@ -200,6 +202,8 @@ def real_h_overview(a, b, pa, pb):
         prev = {"Python": lt("Python", pa), "Java": lt("Java", pb, 1), "C": lt("C", 5, 2)}
     elif SCEN == "nodiff":
         prev = None
+    elif SCEN == "prevempty":
+        prev = {}
     else:
         cur = {"Python": lt("Python", a)}
         prev = {"Python": lt("Python", pa)}
@@ -228,6 +232,28 @@ def real_h_overview(a, b, pa, pb):
                     exp = cv - getattr(p, c)
                     if (dl == "") != (exp == 0) or (dl and int(dl.replace(",", "").replace(".", "")) != exp):
                         problems.append(f"{fmt}:{lang}:{c}: annotation {dl!r}, expected {exp:+d}" if exp else f"{fmt}:{lang}:{c}: annotation {dl!r} although unchanged")
+        if len(cur) > 1:
+            tl = [ln for ln in out.splitlines() if "Totals" in ln] if fmt == "markdown" else []
+            if fmt == "text":
+                # the footer is the last table row that carries figures and no language name
+                rows = [ln for ln in out.splitlines() if cell.search(ln) and not any(l in ln for l in cur)]
+                tl = rows[-1:] if rows else []
+            if len(tl) != 1:
+                problems.append(f"{fmt}: totals row missing")
+            else:
+                cells = cell.findall(tl[0].split("Totals")[-1])
+                for ci, c in enumerate(COLS):
+                    if ci >= len(cells):
+                        problems.append(f"{fmt}:Totals:{c}: cell missing")
+                        continue
+                    val, dl = cells[ci]
+                    cv = sum(getattr(t, c) for t in cur.values())
+                    if int(val.replace(",", "").replace(".", "")) != cv:
+                        problems.append(f"{fmt}:Totals:{c}: shows {val}, stored {cv}")
+                    if prev is not None:
+                        exp = cv - sum(getattr(t, c) for t in prev.values())
+                        if (dl == "") != (exp == 0) or (dl and int(dl.replace(",", "").replace(".", "")) != exp):
+                            problems.append(f"{fmt}:Totals:{c}: annotation {dl!r}, expected {exp:+d}" if exp else f"{fmt}:Totals:{c}: annotation {dl!r} although unchanged")
     fmts = sorted({p.split(":")[0] for p in problems})
     kinds = sorted({"annotation" if "annotation" in p else "value" for p in problems})
     return {"reproduced": bool(problems), "sig": f"overview:{SCEN}:{'+'.join(fmts)}:{'+'.join(kinds)}", "detail": "; ".join(problems[:4])}
